@@ -474,6 +474,24 @@ def dispatch (op : String) : P String := do
     -- the regenerated cutoff arithmetic of BaseNonlinearFun.__init__, evaluated in binary64 like the implementation
     let N ← pNat; let frac ← pRe
     return outRe [(Gen.Misc.dealias_cutoff N frac : CF)]
+  | "poisson" =>
+    -- D N s order f[N^D]  -> solution
+    let D ← pNat; let N ← pNat; let sc ← pRe; let order ← pNat
+    let f ← pMany (N ^ D) pRe
+    let c : Nonlin.Cfg CF := { D := D, N := N, s := sc, fp := 0, fq := 0 }
+    let fh := rfftnM D N f
+    let uh := Transform.tab (numModes D N) (fun h => Nonlin.poissonStep c order h (fh.getD h 0))
+    return outRe (irfftnM D N uh).toList
+  | "derivative" =>
+    -- D N s order u[N^D]  -> D arrays (one per axis)
+    let D ← pNat; let N ← pNat; let sc ← pRe; let order ← pNat
+    let u ← pMany (N ^ D) pRe
+    let c : Nonlin.Cfg CF := { D := D, N := N, s := sc, fp := 0, fq := 0 }
+    return outRe ((List.range D).flatMap (fun d => (Nonlin.derivativeM c order d u).toList))
+  | "laplace_sym" =>
+    let D ← pNat; let N ← pNat; let sc ← pRe; let order ← pNat
+    let c : Nonlin.Cfg CF := { D := D, N := N, s := sc, fp := 0, fq := 0 }
+    return outCF ((List.range (numModes D N)).map (Nonlin.laplace c order))
   | _ => throw s!"unknown op {op}"
 
 partial def loop (h : IO.FS.Stream) (out : IO.FS.Stream) : IO Unit := do
